@@ -110,6 +110,44 @@ class MemoCfg:
         return super().raises(kind, text, node, st)
 
 
+def buffer_args_independent_of_filter(ctx, RULE, P) -> None:
+    from ..pse import Enumerator as _En
+    from ..threads import ThreadCfg as _TC
+
+    f = P.find_method("InotifyEmitter", "on_thread_start")
+    if f is None:
+        raise AnalysisError("anchor vanished: InotifyEmitter.on_thread_start")
+    sigs: dict[tuple, list] = {}
+    for p in _En(_TC(P, follow_attrs=False, no_inline={"start", "get_event_mask_from_filter"})).run(f, selfcls="InotifyEmitter"):
+        for e in p.evs:
+            if e.kind == "call" and e.extra.get("func") in ("InotifyBuffer",):
+                kw = dict(e.extra.get("kwargs") or {})
+                mask_kw = [k for k in kw if "mask" in k]
+                for k in mask_kw:
+                    kw.pop(k)
+                sig = (tuple(e.extra.get("args") or ()), tuple(sorted(kw.items())))
+                sigs.setdefault(sig, []).append(p)
+    if not sigs:
+        raise AnalysisError("InotifyEmitter.on_thread_start: the InotifyBuffer(...) construction was not found")
+    loc = f.loc
+    mentions = [s_ for s_ in sigs if any("filter" in str(x) for x in s_[0]) or any("filter" in str(v) for _k, v in s_[1])]
+    if len(sigs) > 1:
+        # the arguments differ between paths: by what?
+        conds = set()
+        for ps in sigs.values():
+            for p in ps:
+                conds |= {a for a in p.conds() if "filter" in a}
+        ctx.check(
+            not conds,
+            RULE,
+            "InotifyEmitter.on_thread_start: InotifyBuffer(...) arguments besides the mask",
+            f"the reading layer is constructed with different arguments depending on the filter ({sorted(conds)[:2]}): {sorted(str(s_[1]) for s_ in sigs)[:2]} -- a filtered watch then forms other events than the unfiltered one (e.g. without the pairing delay the two halves of a rename read separately become delete + create, which pass a filter the moved event would not)",
+            loc,
+        )
+    else:
+        ctx.check(not mentions, RULE, "InotifyEmitter.on_thread_start: InotifyBuffer(...) arguments besides the mask", f"an argument other than the mask is computed from the filter: {mentions[:1]}", loc)
+
+
 def explicit_mask_unchanged(ctx, RULE, P) -> None:
     import copy
 
@@ -215,6 +253,12 @@ def run(ctx) -> None:
         floor=1,
     )
     explicit_mask_unchanged(ctx, RKM, P)
+    RBF = ctx.rule(
+        "C11/only-the-mask-depends-on-the-filter",
+        "of what the emitter hands to the reading layer when its thread starts (InotifyBuffer(...)), only the event mask is computed from the filter: every other argument (path, recursion, symlink policy, a pairing delay, ...) is the same for a filtered and an unfiltered watch -- the filter is applied to the finished events, so anything else that varies with it changes *which* events are formed (a rename reported as delete + create) rather than which are passed on",
+        floor=1,
+    )
+    buffer_args_independent_of_filter(ctx, RBF, P)
     consts = inotify_constants(P)
     flag_of_prop = inotify_flag_of_property(P)
     name_of = {v: k for k, v in consts.items() if k.startswith("IN_") and v and v & (v - 1) == 0 and k not in ("IN_CLOEXEC", "IN_NONBLOCK")}
